@@ -1,7 +1,301 @@
-/- C11 — statements under construction -/
-import AgpTpf.Model.Remap
+/-
+  C11 — Curation statistics count the real cuts, breaks and joins.
+
+  An adjacency is the UNORDERED pair of the two contig ends that face each other across a junction; a contig end is
+  `(name, coordinate, isTail)` (`End`, in `Proofs/C11Order.lean`).  `junction_tuple` encodes adjacencies injectively
+  (theorems 1, 2), a scaffold and its reverse have the same junction set (3), strand 0 is rejected (4), and
+  `make_stats` reports `|input \ output|` breaks and `|output \ input|` joins of those sets (5), which is the number of
+  adjacencies lost / gained, and does not change when whole scaffolds are reversed in the input or the output.
+  Only property theorems + non-vacuity examples live here; helper lemmas are in `Proofs/C11*.lean`.
+-/
+import AgpTpf.Proofs.C11Extra
 namespace AgpTpf.C11
 open AgpTpf
-theorem appendRows_nil (rows : List Row) (g : Option Gap) : Scaffold.appendRows [] rows g = rows := by
-  cases g <;> simp [Scaffold.appendRows]
+
+/-! ## test values for the non-vacuity examples -/
+
+/-- contig `a`, bases 1..10 -/
+def fA (strand : Int) : Fragment := { name := ['a'], start := 1, stop := 10, strand := strand }
+/-- contig `b`, a 1-bp piece: head and tail coordinates coincide -/
+def fB (strand : Int) : Fragment := { name := ['b'], start := 5, stop := 5, strand := strand }
+/-- contig `a`, bases 11..20 (a cut piece of the same contig) -/
+def fA2 (strand : Int) : Fragment := { name := ['a'], start := 11, stop := 20, strand := strand }
+def gap100 : Row := .gap { length := 100, gapType := ['s'] }
+
+/-! ## 0. `strLt` / `endLe` order contig ends totally (what makes `sorted(...)` a canonical choice) -/
+
+theorem str_lt_irrefl (a : Str) : strLt a a = false := strLt_irrefl a
+theorem str_lt_asymm (a b : Str) (h : strLt a b = true) : strLt b a = false := strLt_asymm a b h
+theorem str_lt_total (a b : Str) (h : a ≠ b) : strLt a b = true ∨ strLt b a = true := strLt_total a b h
+theorem str_lt_trans (a b c : Str) (h1 : strLt a b = true) (h2 : strLt b c = true) : strLt a c = true :=
+  strLt_trans a b c h1 h2
+theorem end_le_refl (x : Str × Int) : endLe x x = true := endLe_refl x
+theorem end_le_total (x y : Str × Int) : endLe x y = true ∨ endLe y x = true := endLe_total x y
+theorem end_le_antisymm (x y : Str × Int) (h1 : endLe x y = true) (h2 : endLe y x = true) : x = y :=
+  endLe_antisymm x y h1 h2
+theorem end_le_trans (x y z : Str × Int) (h1 : endLe x y = true) (h2 : endLe y z = true) : endLe x z = true :=
+  endLe_trans x y z h1 h2
+
+example : strLt ['a', 'b'] ['a', 'c'] = true ∧ strLt ['a'] ['a', 'c'] = true := by decide
+example : endLe (['a'], 7) (['a'], 7) = true ∧ endLe (['a'], 9) (['b'], 2) = true ∧
+    endLe (['b'], 2) (['a'], 9) = false := by decide
+
+/-! ## 1. reversing a scaffold maps the junction `a b` to `b.reverse a.reverse`: same tuple -/
+
+theorem junction_tuple_reverse (a b : Fragment) (_ha : a.strand = 1 ∨ a.strand = -1)
+    (_hb : b.strand = 1 ∨ b.strand = -1) : junctionTuple b.reverse a.reverse = junctionTuple a b :=
+  junctionTuple_reverse_any a b
+
+/-- … and in fact for every strand value (then both sides are the same `ValueError`). -/
+theorem junction_tuple_reverse_any (a b : Fragment) : junctionTuple b.reverse a.reverse = junctionTuple a b :=
+  junctionTuple_reverse_any a b
+
+-- the four strand combinations, on concrete fragments (with the 1-bp fragment `fB`)
+example : junctionTuple (fA 1) (fB 1) = .ok (.s ['a'], .i 10, .s ['b'], .i 5) ∧
+    junctionTuple (fB 1).reverse (fA 1).reverse = .ok (.s ['a'], .i 10, .s ['b'], .i 5) := by decide
+example : junctionTuple (fA 1) (fB (-1)) = .ok (.s ['a'], .i 10, .i 5, .s ['b']) ∧
+    junctionTuple (fB (-1)).reverse (fA 1).reverse = .ok (.s ['a'], .i 10, .i 5, .s ['b']) := by decide
+example : junctionTuple (fA (-1)) (fB 1) = .ok (.i 5, .s ['b'], .s ['a'], .i 1) ∧
+    junctionTuple (fB 1).reverse (fA (-1)).reverse = .ok (.i 5, .s ['b'], .s ['a'], .i 1) := by decide
+example : junctionTuple (fA (-1)) (fB (-1)) = .ok (.s ['b'], .i 5, .s ['a'], .i 1) ∧
+    junctionTuple (fB (-1)).reverse (fA (-1)).reverse = .ok (.s ['b'], .i 5, .s ['a'], .i 1) := by decide
+-- the 1-bp fragment: head and tail have the same coordinate, yet the two orientations give different tuples
+example : junctionTuple (fA 1) (fB 1) ≠ junctionTuple (fA 1) (fB (-1)) ∧
+    junctionTuple (fA (-1)) (fB 1) ≠ junctionTuple (fA (-1)) (fB (-1)) ∧
+    junctionTuple (fB 1) (fA 1) ≠ junctionTuple (fB (-1)) (fA 1) ∧
+    junctionTuple (fB 1) (fA (-1)) ≠ junctionTuple (fB (-1)) (fA (-1)) := by decide
+
+/-! ## 2. the junction tuple is an injective encoding of the adjacency -/
+
+/-- `junction_tuple` succeeds exactly for strands ±1 … -/
+theorem junction_tuple_ok_iff (a b : Fragment) :
+    (∃ t, junctionTuple a b = .ok t) ↔ ((a.strand = 1 ∨ a.strand = -1) ∧ (b.strand = 1 ∨ b.strand = -1)) :=
+  junctionTuple_ok_iff a b
+
+/-- … and is then the encoding `encodeAdj` (a function of the pair of facing ends, symmetric in the two ends). -/
+theorem junction_tuple_spec (a b : Fragment) (ha : a.strand = 1 ∨ a.strand = -1) (hb : b.strand = 1 ∨ b.strand = -1) :
+    junctionTuple a b = .ok (encodeAdj (facingEnds a b)) := junctionTuple_eq_encodeAdj a b ha hb
+
+theorem encode_adj_eq_iff (p q : End × End) : encodeAdj p = encodeAdj q ↔ SameAdj p q :=
+  ⟨encodeAdj_inj, encodeAdj_congr⟩
+
+/-- FULL STRENGTH, both directions: two junctions get the same tuple iff they are the same unordered pair of facing
+    contig ends.  (Success of `junctionTuple` already forces all four strands to be ±1.) -/
+theorem junction_tuple_eq_iff (a b c d : Fragment) (t t' : Junction)
+    (h : junctionTuple a b = .ok t) (h' : junctionTuple c d = .ok t') :
+    t = t' ↔ SameAdj (facingEnds a b) (facingEnds c d) := by
+  obtain ⟨ha, hb⟩ := (junctionTuple_ok_iff a b).mp ⟨t, h⟩
+  obtain ⟨hc, hd⟩ := (junctionTuple_ok_iff c d).mp ⟨t', h'⟩
+  rw [junctionTuple_eq_encodeAdj a b ha hb] at h
+  rw [junctionTuple_eq_encodeAdj c d hc hd] at h'
+  rw [← Except.ok.inj h, ← Except.ok.inj h']
+  exact encode_adj_eq_iff _ _
+
+example : junctionTuple (fA 1) (fB (-1)) = .ok (.s ['a'], .i 10, .i 5, .s ['b']) ∧
+    junctionTuple (fB 1) (fA (-1)) = .ok (.s ['a'], .i 10, .i 5, .s ['b']) ∧
+    SameAdj (facingEnds (fA 1) (fB (-1))) (facingEnds (fB 1) (fA (-1))) := by decide
+example : facingEnds (fA 1) (fB (-1)) = ((['a'], 10, true), (['b'], 5, true)) ∧
+    facingEnds (fA 1) (fB 1) = ((['a'], 10, true), (['b'], 5, false)) ∧
+    ¬ SameAdj (facingEnds (fA 1) (fB (-1))) (facingEnds (fA 1) (fB 1)) := by decide
+
+/-! ## 3. a scaffold and its reverse have the same junction set -/
+
+/-- as the task states it: all strands ±1 ⇒ both succeed, with the same elements (and so the same size) -/
+theorem junction_set_reverse (s : Scaffold) (h : ∀ f ∈ s.fragments, f.strand = 1 ∨ f.strand = -1) :
+    ∃ js js', s.junctionSet = .ok js ∧ s.reverse.junctionSet = .ok js' ∧
+      (∀ j, j ∈ js' ↔ j ∈ js) ∧ js.Nodup ∧ js'.Nodup ∧ js'.Perm js := by
+  have hok : ∃ js0, junctionsOfFrags s.fragments = .ok js0 := by
+    apply (jf_ok_iff _).mpr
+    intro pre a b post e
+    exact ⟨h a (by rw [e]; simp), h b (by rw [e]; simp)⟩
+  obtain ⟨js0, hjs0⟩ := hok
+  have hS : s.junctionSet = .ok (js0.foldl sAdd []) := (junctionSet_ok_iff _ _).mpr ⟨js0, hjs0, rfl⟩
+  obtain ⟨S', hS', hperm, hmem⟩ := junctionSet_reverse_ok s _ hS
+  exact ⟨_, S', hS, hS', hmem, junctionSet_nodup _ _ hS, junctionSet_nodup _ _ hS', hperm⟩
+
+/-- without any strand hypothesis: success is preserved with the same set … -/
+theorem junction_set_reverse_ok (s : Scaffold) (js : List Junction) (h : s.junctionSet = .ok js) :
+    ∃ js', s.reverse.junctionSet = .ok js' ∧ js'.Perm js ∧ ∀ j, j ∈ js' ↔ j ∈ js :=
+  junctionSet_reverse_ok s js h
+
+/-- … and so is failure. -/
+theorem junction_set_reverse_error (s : Scaffold) (e : Err) (h : s.junctionSet = .error e) :
+    s.reverse.junctionSet = .error e := junctionSet_reverse_error s e h
+
+/-- what the elements are: the tuples of the consecutive fragment pairs (gaps skipped) -/
+theorem mem_junction_set (s : Scaffold) (js : List Junction) (h : s.junctionSet = .ok js) (j : Junction) :
+    j ∈ js ↔ ∃ pre a b post, s.fragments = pre ++ a :: b :: post ∧ junctionTuple a b = .ok j :=
+  mem_junctionSet s js h j
+
+def scEx : Scaffold :=
+  { name := ['s'], rows := [.frag (fA 1), gap100, .frag (fB (-1)), gap100, .frag (fA2 (-1)), .frag (fB 1)] }
+
+example : (∀ f ∈ scEx.fragments, f.strand = 1 ∨ f.strand = -1) := by decide
+example : scEx.junctionSet = .ok
+      [(.s ['a'], .i 10, .i 5, .s ['b']), (.s ['a'], .i 20, .s ['b'], .i 5), (.i 5, .s ['b'], .s ['a'], .i 11)] ∧
+    scEx.reverse.junctionSet = .ok
+      [(.i 5, .s ['b'], .s ['a'], .i 11), (.s ['a'], .i 20, .s ['b'], .i 5), (.s ['a'], .i 10, .i 5, .s ['b'])] := by
+  decide
+
+/-! ## 4. strand 0 (or any strand other than ±1) next to another fragment is rejected -/
+
+theorem strand_rejected (s : Scaffold) (pre post : List Fragment) (a b : Fragment)
+    (hs : s.fragments = pre ++ a :: b :: post)
+    (h0 : ¬ (a.strand = 1 ∨ a.strand = -1) ∨ ¬ (b.strand = 1 ∨ b.strand = -1)) :
+    s.junctionSet = .error .value := by
+  cases h : s.junctionSet with
+  | error e => rw [junctionSet_error s e h]
+  | ok S =>
+    have := junctionSet_ok_strands s S h pre a b post hs
+    rcases h0 with h0 | h0
+    · exact absurd this.1 h0
+    · exact absurd this.2 h0
+
+theorem strand0_rejected (s : Scaffold) (pre post : List Fragment) (a b : Fragment)
+    (hs : s.fragments = pre ++ a :: b :: post) (h0 : a.strand = 0 ∨ b.strand = 0) :
+    s.junctionSet = .error .value := by
+  apply strand_rejected s pre post a b hs
+  rcases h0 with h0 | h0
+  · left; omega
+  · right; omega
+
+example : ({ name := ['s'], rows := [.frag (fA 1), gap100, .frag (fB 0), .frag (fA2 1)] } : Scaffold).fragments
+      = [fA 1] ++ fB 0 :: fA2 1 :: [] ∧
+    ({ name := ['s'], rows := [.frag (fA 1), gap100, .frag (fB 0), .frag (fA2 1)] } : Scaffold).junctionSet
+      = .error .value := by decide
+/-- (a lone strand-0 fragment has no junction and is not rejected — as in the Python) -/
+example : ({ name := ['s'], rows := [.frag (fB 0)] } : Scaffold).junctionSet = .ok [] := by decide
+
+/-! ## 5. `make_stats`: breaks = |input \ output|, joins = |output \ input| -/
+
+/-- The statistics as computed: `inputSet` / `outputSet` are duplicate-free lists whose members are exactly the
+    junction tuples of consecutive fragment pairs of the input scaffolds / of the scaffolds of all output
+    assemblies; `cuts` is passed through. -/
+theorem make_stats_counts (input : List Scaffold) (outs : List OutAsm) (cuts : Int) (st : Stats)
+    (h : makeStats input outs cuts = .ok st) :
+    ∃ inputSet outputSet : List Junction,
+      inputSet.Nodup ∧ outputSet.Nodup ∧
+      (∀ j, j ∈ inputSet ↔ JunctionIn input j) ∧
+      (∀ j, j ∈ outputSet ↔ JunctionInOuts outs j) ∧
+      st.cuts = cuts ∧
+      st.breaks = ((sDiff inputSet outputSet).length : Int) ∧
+      st.joins = ((sDiff outputSet inputSet).length : Int) := by
+  obtain ⟨inSets, outSets, h1, h2, hc, hb, hj⟩ := makeStats_ok input outs cuts st h
+  obtain ⟨-, hin⟩ := junctionsByPrefix_spec input inSets h1
+  obtain ⟨-, hout⟩ := outSets_spec outs outSets h2
+  refine ⟨unionOf inSets, unionOf outSets, unionOf_nodup _, unionOf_nodup _, ?_, ?_, hc, hb, hj⟩
+  · intro j; rw [mem_unionOf, hin]
+  · intro j; rw [mem_unionOf, hout]
+
+/-- `sDiff` is set difference on duplicate-free lists -/
+theorem s_diff_spec {α : Type} [DecidableEq α] (s t : List α) (hs : s.Nodup) :
+    (sDiff s t).Nodup ∧ ∀ x, x ∈ sDiff s t ↔ x ∈ s ∧ x ∉ t :=
+  ⟨nodup_sDiff s t hs, mem_sDiff s t⟩
+theorem s_add_spec {α : Type} [DecidableEq α] (s : List α) (x : α) (hs : s.Nodup) :
+    (sAdd s x).Nodup ∧ ∀ y, y ∈ sAdd s x ↔ y ∈ s ∨ y = x :=
+  ⟨nodup_sAdd s x hs, mem_sAdd s x⟩
+theorem s_union_spec {α : Type} [DecidableEq α] (s t : List α) (hs : s.Nodup) :
+    (sUnion s t).Nodup ∧ ∀ y, y ∈ sUnion s t ↔ y ∈ s ∨ y ∈ t :=
+  ⟨nodup_sUnion s t hs, mem_sUnion s t⟩
+
+/-- set reading: `breaks` is the cardinality of {junction tuples in the input, in no output assembly},
+    `joins` of {junction tuples in some output assembly, not in the input}. -/
+theorem make_stats_breaks_joins (input : List Scaffold) (outs : List OutAsm) (cuts : Int) (st : Stats)
+    (h : makeStats input outs cuts = .ok st) :
+    ∃ breaks joins : List Junction,
+      breaks.Nodup ∧ joins.Nodup ∧
+      (∀ j, j ∈ breaks ↔ JunctionIn input j ∧ ¬ JunctionInOuts outs j) ∧
+      (∀ j, j ∈ joins ↔ JunctionInOuts outs j ∧ ¬ JunctionIn input j) ∧
+      st.breaks = (breaks.length : Int) ∧ st.joins = (joins.length : Int) ∧ st.cuts = cuts := by
+  obtain ⟨I, O, hI, hO, mI, mO, hc, hb, hj⟩ := make_stats_counts input outs cuts st h
+  refine ⟨sDiff I O, sDiff O I, nodup_sDiff _ _ hI, nodup_sDiff _ _ hO, ?_, ?_, hb, hj, hc⟩
+  · intro j; rw [mem_sDiff, mI, mO]
+  · intro j; rw [mem_sDiff, mI, mO]
+
+/-- the unordered contig-end pair `p` is an adjacency in some output assembly -/
+def AdjacencyInOuts (outs : List OutAsm) (p : End × End) : Prop := ∃ a ∈ outs, AdjacencyIn a.scaffolds p
+
+/-- ADJACENCY reading (the property as stated): there are `breaks` pairwise different unordered adjacencies that
+    are in the input and in no output assembly, and every such adjacency is one of them; likewise `joins`. -/
+theorem make_stats_counts_adjacencies (input : List Scaffold) (outs : List OutAsm) (cuts : Int) (st : Stats)
+    (h : makeStats input outs cuts = .ok st) :
+    ∃ broken joined : List (End × End),
+      st.breaks = (broken.length : Int) ∧ st.joins = (joined.length : Int) ∧
+      broken.Pairwise (fun p q => ¬ SameAdj p q) ∧ joined.Pairwise (fun p q => ¬ SameAdj p q) ∧
+      (∀ p, (∃ q ∈ broken, SameAdj q p) ↔ AdjacencyIn input p ∧ ¬ AdjacencyInOuts outs p) ∧
+      (∀ p, (∃ q ∈ joined, SameAdj q p) ↔ AdjacencyInOuts outs p ∧ ¬ AdjacencyIn input p) := by
+  obtain ⟨inSets, outSets, h1, h2, -, -, -⟩ := makeStats_ok input outs cuts st h
+  obtain ⟨sIn, -⟩ := junctionsByPrefix_spec input inSets h1
+  obtain ⟨sOut, -⟩ := outSets_spec outs outSets h2
+  obtain ⟨B, J, hB, hJ, mB, mJ, eb, ej, -⟩ := make_stats_breaks_joins input outs cuts st h
+  have hI : ∀ p, JunctionIn input (encodeAdj p) ↔ AdjacencyIn input p := junctionIn_encode_iff input sIn
+  have hO : ∀ p, JunctionInOuts outs (encodeAdj p) ↔ AdjacencyInOuts outs p := by
+    intro p
+    unfold JunctionInOuts AdjacencyInOuts
+    constructor
+    · rintro ⟨a, ha, hj⟩; exact ⟨a, ha, (junctionIn_encode_iff _ (sOut a ha) p).mp hj⟩
+    · rintro ⟨a, ha, hj⟩; exact ⟨a, ha, (junctionIn_encode_iff _ (sOut a ha) p).mpr hj⟩
+  have preI : ∀ j, JunctionIn input j → ∃ p, encodeAdj p = j := junctionIn_encoded input sIn
+  have preO : ∀ j, JunctionInOuts outs j → ∃ p, encodeAdj p = j := by
+    rintro j ⟨a, ha, hj⟩; exact junctionIn_encoded _ (sOut a ha) j hj
+  obtain ⟨broken, lb, pb, mb⟩ := count_adjacencies _ _ _ _ hI hO preI B hB mB
+  obtain ⟨joined, lj, pj, mj⟩ := count_adjacencies _ _ _ _ hO hI preO J hJ mJ
+  exact ⟨broken, joined, by rw [eb, lb], by rw [ej, lj], pb, pj, mb, mj⟩
+
+/-- Reversing whole scaffolds (any of them, in the input and/or in any output assembly; also reordering them)
+    keeps `make_stats` succeeding and changes neither count. -/
+theorem make_stats_reversal_invariant (input input' : List Scaffold) (outs outs' : List OutAsm) (cuts : Int)
+    (st : Stats) (h : makeStats input outs cuts = .ok st)
+    (hin : RevEquiv input input')
+    (hout : (∀ a ∈ outs, ∃ a' ∈ outs', RevEquiv a.scaffolds a'.scaffolds) ∧
+            (∀ a' ∈ outs', ∃ a ∈ outs, RevEquiv a.scaffolds a'.scaffolds)) :
+    ∃ st', makeStats input' outs' cuts = .ok st' ∧
+      st'.breaks = st.breaks ∧ st'.joins = st.joins ∧ st'.cuts = st.cuts := by
+  obtain ⟨okI, okO⟩ := (makeStats_ok_iff input outs cuts).mp ⟨st, h⟩
+  have hex : ∃ st', makeStats input' outs' cuts = .ok st' := by
+    apply (makeStats_ok_iff input' outs' cuts).mpr
+    constructor
+    · intro sc' hsc'
+      obtain ⟨sc, hsc, hr⟩ := hin.2 sc' hsc'
+      exact junctionSet_ok_revRel sc sc' hr (okI sc hsc)
+    · intro a' ha' sc' hsc'
+      obtain ⟨a, ha, hr⟩ := hout.2 a' ha'
+      obtain ⟨sc, hsc, hr'⟩ := hr.2 sc' hsc'
+      exact junctionSet_ok_revRel sc sc' hr' (okO a ha sc hsc)
+  obtain ⟨st', h'⟩ := hex
+  obtain ⟨B, J, hB, hJ, mB, mJ, eb, ej, ec⟩ := make_stats_breaks_joins input outs cuts st h
+  obtain ⟨B', J', hB', hJ', mB', mJ', eb', ej', ec'⟩ := make_stats_breaks_joins input' outs' cuts st' h'
+  have eI : ∀ j, JunctionIn input' j ↔ JunctionIn input j := junctionIn_revEquiv input input' hin
+  have eO : ∀ j, JunctionInOuts outs' j ↔ JunctionInOuts outs j := by
+    intro j
+    unfold JunctionInOuts
+    constructor
+    · rintro ⟨a', ha', hj⟩
+      obtain ⟨a, ha, hr⟩ := hout.2 a' ha'
+      exact ⟨a, ha, (junctionIn_revEquiv _ _ hr j).mp hj⟩
+    · rintro ⟨a, ha, hj⟩
+      obtain ⟨a', ha', hr⟩ := hout.1 a ha
+      exact ⟨a', ha', (junctionIn_revEquiv _ _ hr j).mpr hj⟩
+  have pB : B'.Perm B := (List.perm_ext_iff_of_nodup hB' hB).mpr (by intro j; rw [mB', mB, eI, eO])
+  have pJ : J'.Perm J := (List.perm_ext_iff_of_nodup hJ' hJ).mpr (by intro j; rw [mJ', mJ, eI, eO])
+  exact ⟨st', h', by rw [eb', eb, pB.length_eq], by rw [ej', ej, pJ.length_eq], by rw [ec', ec]⟩
+
+/-! ### a worked curation: input scaffold `a+ b+ a2+`; the output keeps `a|b` (written reversed), and moves `a2` -/
+
+def inEx : List Scaffold :=
+  [{ name := ['s', '1'], rows := [.frag (fA 1), gap100, .frag (fB 1), gap100, .frag (fA2 1)] }]
+def outEx : List OutAsm :=
+  [{ key := none, curated := true, scaffolds :=
+      [{ name := ['r', '1'], rows := [.frag (fB (-1)), gap100, .frag (fA (-1))] },
+       { name := ['r', '2'], rows := [.frag (fA2 1)] }] }]
+
+/-- one break (`b|a2`), no join; the kept junction `a|b` is recognised although it is now written reversed -/
+example : ∃ st, makeStats inEx outEx 0 = .ok st ∧ st.breaks = 1 ∧ st.joins = 0 := by
+  refine ⟨{ cuts := 0, breaks := 1, joins := 0, perAssembly := [(sPrimary, 1, 0)] }, ?_, rfl, rfl⟩
+  decide +kernel
+
+example : RevEquiv inEx (inEx.map Scaffold.reverse) := by
+  unfold RevEquiv RevRel inEx
+  simp
+
 end AgpTpf.C11
